@@ -202,6 +202,26 @@ theorem coherent_load (c : PTChain) (sv : List Chain.Saved) (h : Coherent c) : C
         Option.map_some] at this
       exact Option.some.inj this
 
+/-- A LOADED LADDER IS THE SAVED ONE. After `set_state`, level `t` (for every level present in the
+    saved state) samples at the beta that was saved for it — whatever ladder the target was built
+    with — and, by `coherent_load`, the ladder entry used for swaps and reported by the sampler is
+    that same number ("adapt during burn-in, continue with the frozen ladder"). -/
+theorem C17_loaded_ladder_is_saved (c : PTChain) (sv : List Chain.Saved) (h : Coherent c) (t : Nat)
+    (ht : t < c.levels.length) (hs : t < sv.length) :
+    ((c.load sv).levels[t]'(by simp [PTChain.load, loadLevels_length]; exact ht)).beta = (sv[t]).beta ∧
+    (c.load sv).betas[t]? = some (sv[t]).beta := by
+  have h1 : ((c.load sv).levels[t]'(by simp [PTChain.load, loadLevels_length]; exact ht)).beta = (sv[t]).beta := by
+    have := loadLevels_getElem c.levels sv t ht
+    simp only [hs, dite_true] at this
+    simpa [PTChain.load] using this
+  refine ⟨h1, ?_⟩
+  have hc := coherent_load c sv h
+  unfold Coherent at hc
+  rw [← hc, List.getElem?_map]
+  have hl : t < (c.load sv).levels.length := by simp [PTChain.load, loadLevels_length]; exact ht
+  rw [List.getElem?_eq_getElem hl]
+  simp [h1]
+
 /-- COHERENCE, for every reachable state: at every iteration the inverse temperature applied
     inside level `t`'s Metropolis–Hastings steps (`Chain.beta`, the `beta` of `logAR`) is the same
     number as the `t`-th beta used to decide swaps (`pairLogAR` reads `PTChain.betas`) and reported
